@@ -170,7 +170,7 @@ func (r *Run) Finish(verifDir string, known []Known) int {
 		path := filepath.Join(verifDir, "replay", fmt.Sprintf("%s-%d.json", r.Property, n+1))
 		b, _ := json.MarshalIndent(map[string]any{
 			"property": r.Property, "tier": r.Tier, "obligation": o,
-			"rule_decides": r.Rules[o.Rule],
+			"rule_decides":  r.Rules[o.Rule],
 			"how_to_replay": fmt.Sprintf("cd /verif && ./check.sh %s %s   # re-analyses /repo and re-evaluates this obligation", r.Property, r.Tier),
 		}, "", " ")
 		os.WriteFile(path, b, 0o644)
@@ -210,16 +210,16 @@ func (r *Run) Finish(verifDir string, known []Known) int {
 		"distinct_nontrivial":    nontriv,
 		"rule": "one evaluation per (rule, construct) obligation enumerated from the frozen rule table over the current source; " +
 			"non-trivial = the obligation had at least one concrete subject site (guard, effect, access, path) in the program",
-		"exhaustive":            true,
-		"samples":               samples,
-		"functions_analysed":    funcs,
-		"functions_in_program":  r.FuncsTotal,
-		"packages":              r.Packages,
-		"call_sites_inspected":  r.CallSites,
-		"not_decided":           r.NotDecided,
-		"stale_known_findings":  stale,
-		"checker_cmd":           fmt.Sprintf("./check.sh %s %s", r.Property, r.Tier),
-		"trusted_base":          []string{"go/types, go/ssa (x/tools v0.29.0)", "frozen rule tables in /verif/checker/internal/rules"},
+		"exhaustive":           true,
+		"samples":              samples,
+		"functions_analysed":   funcs,
+		"functions_in_program": r.FuncsTotal,
+		"packages":             r.Packages,
+		"call_sites_inspected": r.CallSites,
+		"not_decided":          r.NotDecided,
+		"stale_known_findings": stale,
+		"checker_cmd":          fmt.Sprintf("./check.sh %s %s", r.Property, r.Tier),
+		"trusted_base":         []string{"go/types, go/ssa (x/tools v0.29.0)", "frozen rule tables in /verif/checker/internal/rules"},
 	}
 	for k, v := range r.Extra {
 		cov[k] = v
